@@ -1784,6 +1784,15 @@ class Models:
             return -1
         if name == "count":
             sub = chars(a[0])
+            lo = 0 if len(a) < 2 or a[1] is None else I.concretize_int(W, a[1])
+            hi = len(cs) if len(a) < 3 or a[2] is None else I.concretize_int(W, a[2])
+            if lo > len(cs):
+                return 0            # CPython: a start beyond the end finds nothing, not even the empty string
+            lo, hi, _ = slice(lo, hi).indices(len(cs))
+            if len(a) > 1:
+                if lo > hi:
+                    return 0
+                cs = cs[lo:hi]
             if len(sub) == 0:
                 return len(cs) + 1
             n, i = 0, 0
@@ -1890,6 +1899,8 @@ class Models:
             x = a[0]
             if all_concrete(x) and all_concrete(*o) and self._plain_seq(o) and self._plain(x):
                 return native(getattr(o, name), *a)
+            if len(a) > 1:
+                raise Unsupported(f"tuple.{name} with bounds")
             fn = {"index": prelude._list_index, "count": prelude._list_count, "__contains__": prelude._seq_contains}[name]
             return Redirect(fn, (o, x))
         if name == "__len__":
